@@ -17,8 +17,13 @@ CHECKS = {
         text='Bounded symbolic model checking of one inductive step: every '
              'path of the real PUT/POST allocation request code over a '
              'symbolic pre-state is explored; on each accepted path z3 proves '
-             'the unit, capacity and no-growth clauses for all numeric values. '
-             'Bounds (providers, classes, consumers) per family in evidence.',
+             'the unit, capacity and no-growth clauses for all numeric values; '
+             'PUT in every document format at a symbolic microversion, POST '
+             'with 2-3 writers, reshaper rewriting two inventories and two '
+             'consumers, flat / chain / star forests (thorough). Bounds '
+             '(providers, classes, consumers) per family in evidence. Every '
+             'check ends with a conformance pass: sampled passing paths are '
+             're-run on the real application on SQLite and must agree.',
         ref='DESIGN.md section 5 C01'),
     'C02': dict(
         text='Bounded symbolic model checking: on every path of the real GET '
@@ -31,7 +36,9 @@ CHECKS = {
         ref='DESIGN.md section 5 C02'),
     'C13': dict(
         text='Bounded symbolic model checking against a per-provider oracle: '
-             'for 26+ filter combinations every path of the real GET '
+             'for 36 hand-written filter families and every generated '
+             'combination of two (quick) / three / all six (thorough) of '
+             'the six filters in every variant, every path of the real GET '
              '/resource_providers over symbolic inventories, usage, trait and '
              'aggregate bits and requested amounts; z3 proves listed <=> '
              'matches(p) for every provider on every path.',
@@ -43,8 +50,13 @@ CHECKS = {
              'handlers is explored and z3 proves observable present <=> '
              'lo <= m < hi, i.e. all 40 versions are decided at once and an '
              'off-by-one boundary yields the exact minor as counterexample. '
-             'Route x method availability likewise. Header negotiation '
-             'strings are enumerated concretely (stated as enumeration).',
+             'Route x method availability likewise. The language of the '
+             'per-group query parameter names is decided by z3 regular-'
+             'expression inclusion on the patterns read from the code '
+             '(witnesses replayed). Every pair of (request kind, version) in '
+             'one process must carry exactly one openstack-api-version value '
+             'and Vary. Header negotiation strings are enumerated concretely '
+             '(stated as enumeration).',
         ref='DESIGN.md section 5 C14, Appendix C'),
     'C15': dict(
         text='Claimed slice of C15: (a) every numeric leaf of the write '
@@ -53,7 +65,12 @@ CHECKS = {
              'with symbolic numbers; (d) error body format at a symbolic '
              'microversion (code <=> minor >= 23); (e) numeric query values '
              'on exotic topologies; z3 decides every branch and the '
-             'no-change obligations. (f) CrossHair on the pure query-string '
+             'no-change obligations; (e2) enumerated catalogues on symbolic '
+             'states: hostile strings in every string position and key, raw '
+             'bodies (deep nesting, bad UTF-8, surrogates, scalars), path '
+             'items, repeated / conflicting query parameters, undecodable '
+             'bytes, 64-bit boundary numbers (the symbolic database models '
+             'the driver range of bound integers). (f) CrossHair on the pure query-string '
              'parsers: bounded bug-hunting, "Not confirmed" is reported as '
              'such, never as a proof.',
         ref='DESIGN.md section 5 C15'),
@@ -75,8 +92,10 @@ CHECKS = {
              'project); the real oslo.policy enforcer runs on the real rule '
              'defaults and z3 proves served => documented rule admits the '
              'caller, denied => rule does not, 401 without token, no state '
-             'change when denied. Single-rule overrides (! and @) are '
-             'enumerated over rules x operations.',
+             'change when denied - at 1.39 and at a symbolic microversion. '
+             'Single-rule overrides (! and @) are enumerated over rules x '
+             'operations; overrides loaded from a real policy file and '
+             'removed from it within one process.',
         ref='DESIGN.md section 5 C16'),
     'C18': dict(
         category='fault_enumeration',
@@ -103,7 +122,7 @@ CHECKS = {
     'C20': dict(
         text='Bounded symbolic model checking: unlimited and limit=1..M+1 '
              'requests run in one path over a symbolic state; random.sample/'
-             'shuffle are replaced by arbitrary selections explored as '
+             'shuffle/choices are replaced by arbitrary selections explored as '
              'decisions, so every seed is covered; z3 proves count, subset, '
              'distinctness, prefix (no randomisation) and summary coverage.',
         ref='DESIGN.md section 5 C20'),
@@ -158,7 +177,8 @@ CHECKS = {
         ref='DESIGN.md section 5 C08'),
     'C09': dict(
         text='One inductive step from every forest: the forest over the pool '
-             '(all 16 forests on 3 providers quick, all 125 on 4 thorough), '
+             '(all 16 forests on 3 providers quick, all 125 on 4 plus six '
+             'deep forests on 8 providers thorough), '
              'the operands and the request (POST under any parent / missing '
              '/ self, PUT to every new parent incl. descendants, DELETE) are '
              'explorer decisions; microversion minor (0..39) and generations '
@@ -170,7 +190,12 @@ CHECKS = {
         text='One inductive step over the write corpus with symbolic stored '
              'and supplied generations: z3 proves monotonicity, strict '
              'increase on accepted changes, no change on rejections, and '
-             'returned == stored generation.',
+             'returned == stored generation; after an accepted write on a '
+             'root / child / grandchild the returned generation equals what '
+             'all ten generation-reporting read routes return; k accepted '
+             'concurrent writes move a generation by at least k (also with '
+             'allocation_conflict_retry_count 1 and 2); shapes where the '
+             'consumer carries a provider uuid.',
         ref='DESIGN.md section 5 C10'),
     'C11': dict(
         text='Two one-step obligations over an arbitrary valid symbolic '
